@@ -159,6 +159,15 @@ def apply_event(ev, executors):
     if kind == "ext":
         executors[ev[1]][1].add_extended_md({"docker": DockerSpec("base/image:0")})
         return ("ok",)
+    if kind == "apply":
+        # a translation that is started and abandoned: the client-side passes run, the files are never written
+        b, exe = executors[ev[1]]
+        text = MENUS[b][ev[2]][0]
+        try:
+            exe.apply_ast_transformations(parse_query(text))
+        except Exception:
+            pass
+        return ("ok",)
     if kind in ("tr", "again"):
         b, exe = executors[ev[1]]
         text = MENUS[b][ev[2]][0]
@@ -175,6 +184,7 @@ def apply_event(ev, executors):
     raise ValueError(ev)
 
 
+APPLY_ONLY = ("mt_int_ok", "enum1", "jobscript", "inject", "cppfn", "coll_override", "mt_on_default_type")     # the menu queries that declare something
 _AST_OBJECTS = {}     # (backend, menu query) -> the ast object most recently handed to the library in this process
 
 
@@ -191,6 +201,7 @@ def enabled_events(history, max_exec):
         evs.append(("ext", i))
         evs += [("tr", i, q) for q in MENUS[b]]
         evs += [("again", i, q) for (hb, q) in handed if hb == b]
+        evs += [("apply", i, q) for q in (APPLY_ONLY if os.environ.get("VERIF_C07_TIER") == "thorough" else APPLY_ONLY[:3]) if q in MENUS[b]]
     return evs
 
 
@@ -270,6 +281,7 @@ def main(tier="quick"):
     rep = Report(PROP, tier)
     known = F.load(PROP)
     depth, max_exec, dedup_from = (4, 2, 99) if tier == "quick" else (5, 3, 3)
+    os.environ["VERIF_C07_TIER"] = tier      # read by enabled_events in the forked explorers (quick: three abandoned-translation queries)
     # the pool workers import the library once and never translate themselves: every history runs in a fork of them
     import func_adl_xAOD.atlas.xaod.executor  # noqa
     import func_adl_xAOD.cms.aod.executor  # noqa
@@ -343,12 +355,14 @@ def main(tier="quick"):
     for h, ev, got, want in sorted(bad, key=lambda x: (len(x[0]), str(x))):
         mh = minimise(h, ev, want, max_exec)
         b = [e[1] for e in mh if e[0] == "new"][ev_index(mh, h, ev)]
-        culprits = sorted({e[2] if e[0] == "tr" else e[0] for e in mh if e[0] != "new"} | ({"same-object-again"} if ev[0] == "again" else set()))
+        culprits = sorted({e[2] if e[0] == "tr" else (f"apply:{e[2]}" if e[0] == "apply" else e[0]) for e in mh if e[0] != "new"} | ({"same-object-again"} if ev[0] == "again" else set()))
         feat = {"culprits": culprits, "probe": ev[2], "probe_backend": b,
                 "executor_backends": sorted({e[1] for e in mh if e[0] == "new"}),
                 "n_executors": sum(1 for e in mh if e[0] == "new"),
                 "got_kind": got[0], "want_kind": want[0], "got": str(got)[:200], "want": str(want)[:200],
                 "history": [list(e) for e in h], "min_history": [list(e) for e in mh], "event": list(ev)}
+        # (in the minimal history) a translation was abandoned on an executor other than the one that translates now
+        feat["abandoned_on_other_executor"] = any(e[0] == "apply" and e[1] != ev[1] for e in mh)
         feat["diff"] = ""
         if got[0] == "pkg" and want[0] == "pkg":
             from mc.lang.norm import first_diff
@@ -412,7 +426,7 @@ def minimise(h, ev, want, max_exec):
                 # an executor can only be dropped if nothing refers to it or to later ones
                 idx = sum(1 for x in cur[:i] if x[0] == "new")
                 nnew = sum(1 for x in cur if x[0] == "new")
-                if idx != nnew - 1 or ev[1] == idx or any(x[0] in ("tr", "again", "ext") and x[1] == idx for x in cur):
+                if idx != nnew - 1 or ev[1] == idx or any(x[0] in ("tr", "again", "ext", "apply") and x[1] == idx for x in cur):
                     continue
             cand = cur[:i] + cur[i + 1:]
             try:
